@@ -71,6 +71,15 @@ CHECKS = {
             'parameter must carry exactly one sync watcher of the target iff a live link depends on it.',
             'explicit-state BFS over operation histories of the real code vs. a reference model of live links',
             BASE_NOTE),
+    'C11': ('exploration', 'DESIGN.md §3 C11',
+            'Chains of 2 (all subsets of <= 2, for Number>Number <= 3, explicitly specified attributes per level), chains of 3 (middle class declaring, '
+            'not declaring, or declaring a more general type) and diamonds (with and without redeclaration at the join), over the types Parameter / '
+            'Number / Integer / String and a menu of 16 attribute values (defaults that agree or conflict with inherited bounds, None defaults, bounds, '
+            'inclusivity, step, regex, doc, constant, readonly, allow_None, instantiate, precedence, per_instance), by class creation and by add_parameter: '
+            'every slot of the resulting Parameter is compared with an independent per-slot MRO resolver, and creation must fail exactly when the C01 '
+            'predicate rejects the merged default under the merged constraints (None re-checked only after a type change).',
+            'bounded-exhaustive enumeration of declared hierarchies on real class creation vs. an independent resolver',
+            BASE_NOTE),
     'C12': ('model_checking', 'DESIGN.md §3 C12',
             'BFS over instance creation (plain, with keyword, with a reference that yields no value), instance / class / subclass assignments, in-place '
             'mutation of values through instances and classes, Parameter attribute assignment and in-place mutation of a Selector\'s objects on instances and '
